@@ -512,3 +512,51 @@ def mon_c09_sched(case, verdict, chk, points=None):
         chk.violation(fp, what, {"kind": "impl-counterexample", "case": {k: v for k, v in case.items() if k not in ("sweeps", "wf", "log")},
                                  "schedule_plan": [{"id": sw["point"], "nth": sw["nth"], "delay_ms": case.get("hold_ms")}],
                                  "delayed_result": res, "delayed_log": sw.get("log")})
+
+
+GRACE_MS = 5000
+TOLERANCE_MS = 1500
+
+
+def mon_c06_cancel(case, verdict, chk):
+    """after the caller's context is cancelled: return within grace + sum of closure timeouts, every executing plugin is
+    signalled (or closed), nothing is left running, and an output returned after the cancel is a genuine one"""
+    if case.get("cancel_after_ms", -1) < 0:
+        return
+    res = case.get("result", {})
+    log = case.get("log", [])
+    cancel = [e for e in log if e["ev"] == "ctx-cancel"]
+    if not res.get("returned"):
+        chk.violation("C06:no-return-after-cancel", "Execute did not return after its context was cancelled",
+                      {"kind": "impl-counterexample", "case": slim(case), "dump": case.get("dump")})
+        return
+    if not cancel:
+        return  # the run finished before the cancellation fired
+    cseq = cancel[0]["seq"]
+    closure = case.get("closure_ms", {})
+    bound = GRACE_MS + sum(closure.values()) + TOLERANCE_MS
+    if case.get("after_cancel_ms", 0) > bound:
+        chk.violation("C06:cancel-bound-exceeded", "Execute returned %d ms after the cancellation; bound %d ms" % (case["after_cancel_ms"], bound),
+                      {"kind": "impl-counterexample", "case": slim(case)})
+    beh = case.get("behaviours", {})
+    steps = {s["id"]: s for s in case["wf"]["steps"]}
+    for sid in steps:
+        started = [e for e in log if e["ev"] == "exec-start" and e["src"] == sid and e["seq"] < cseq]
+        ended_before = [e for e in log if e["ev"] == "exec-end" and e["src"] == sid and e["seq"] < cseq]
+        if started and not ended_before:
+            signalled = any(e["ev"] == "cancel-signal" and e["src"] == sid for e in log)
+            closed = any(e["ev"] == "close" and e["src"] == sid and e["seq"] > cseq for e in log)
+            has_handler = steps[sid].get("step") == "op"
+            if has_handler and not signalled and not any(e["ev"] == "exec-end" and e["src"] == sid for e in log):
+                chk.violation("C06:running-plugin-not-signalled", "plugin of step %s was executing at cancellation and got no cancel signal" % sid,
+                              {"kind": "impl-counterexample", "case": slim(case), "step": sid})
+            if not closed:
+                chk.violation("C06:running-plugin-not-closed", "plugin of step %s was executing at cancellation and was never closed" % sid,
+                              {"kind": "impl-counterexample", "case": slim(case), "step": sid})
+    mon_c05_engine(case, verdict, chk)
+    if res.get("output_id"):
+        c2 = dict(case, cancel_after_ms=-1)
+        try:
+            _mon_c03_engine(c2, verdict, chk)
+        except Unsupported:
+            pass
